@@ -78,14 +78,14 @@ func runC13W(t *testing.T, c c13wCase) kit.Outcome {
 				w.start(a)
 			case 1:
 				w.wg.Add(1)
-				go func() { defer w.wg.Done(); a.cancel() }()
+				go func() { defer w.wg.Done(); defer notePanic(); a.cancel() }()
 			case 2:
 				if c.Release {
 					w.mu.Lock()
 					holder.Released = true
 					w.mu.Unlock()
 					w.wg.Add(1)
-					go func() { defer w.wg.Done(); complete(holder.L, 0) }()
+					go func() { defer w.wg.Done(); defer notePanic(); complete(holder.L, 0) }()
 				}
 			}
 		}
